@@ -438,6 +438,169 @@ static std::string run_memo(const Sx& c) {
   return "(" + out + (crashed ? " (-996)" : "") + ")";
 }
 
+// ------------------------------------------------------------------ 83: histories on a neighbourhood object
+//  (83 cls (nmaxi radius nmini nsect | width) dbin dbout same ops)  cls 0 NeighMoving 1 NeighUnique 2 NeighBench
+//  ops: (0) attach  (1 t) select  (2 b) setFlagXvalid  (5 b leaf) setBallSearch  (6) setIsChanged  (7) reset
+//       (9 n) setNMaxi  (10 n) setNMini
+//  every select is also asked to a FRESH object of the same class brought to the same inputs (setters first, attach last)
+#include "Neigh/NeighBench.hpp"
+struct NgIn { bool attached = false; bool xvalid = false; bool ball = false; int leaf = 10; int nmaxi = 0, nmini = 1; VectorInt colcok; };
+static ANeigh* mkneigh(const Sx& c) {
+  long long cls = c[1].i();
+  if (cls == 0) return NeighMoving::create(false, (int) c[2][0].i(), c[2][1].d(), (int) c[2][2].i(), (int) c[2][3].i());
+  if (cls == 1) return NeighUnique::create(false);
+  return NeighBench::create(false, c[2][0].d());
+}
+static std::string run_neigh(const Sx& c) {
+  bool crashed = false;
+  std::string out = in_child([&](int fd) {
+    Db* dbin = mkdb(c[3]); Db* dbout = c[5].b() ? dbin : mkdb(c[4]);
+    ANeigh* ng = mkneigh(c);
+    NgIn in; if (c[1].i() == 0) { in.nmaxi = (int) c[2][0].i(); in.nmini = (int) c[2][2].i(); }
+    for (auto& op : c[6].l) {
+      long long k = op[0].i();
+      if (k == 0) { ng->attach(dbin, dbout); in.attached = true; }
+      else if (k == 2) { ng->setFlagXvalid(op[1].b()); in.xvalid = op[1].b(); }
+      else if (k == 5) { ng->setBallSearch(op[1].b(), (int) op[2].i()); in.ball = op[1].b(); in.leaf = (int) op[2].i(); }
+      else if (k == 6) ng->setIsChanged();
+      else if (k == 7) { ng->reset(); in.xvalid = false; in.colcok = VectorInt(); }
+      else if (k == 8) { VectorInt rk; for (auto& x : op[1].l) rk.push_back((int) x.i()); ng->setRankColCok(rk); in.colcok = rk; }
+      else if (k == 9) { NeighMoving* m = dynamic_cast<NeighMoving*>(ng); if (m) { m->setNMaxi((int) op[1].i()); in.nmaxi = (int) op[1].i(); } }
+      else if (k == 10) { NeighMoving* m = dynamic_cast<NeighMoving*>(ng); if (m) { m->setNMini((int) op[1].i()); in.nmini = (int) op[1].i(); } }
+      else if (k == 1) {
+        if (!in.attached) { wr(fd, " (-1)"); continue; }
+        int t = (int) op[1].i();
+        bool fc = false;
+        std::string f = in_child([&](int fd2) {
+          ANeigh* fr = mkneigh(c);
+          fr->setFlagXvalid(in.xvalid); fr->setBallSearch(in.ball, in.leaf); fr->setRankColCok(in.colcok);
+          NeighMoving* m = dynamic_cast<NeighMoving*>(fr); if (m) { m->setNMaxi(in.nmaxi); m->setNMini(in.nmini); }
+          fr->attach(dbin, dbout);
+          VectorInt r; fr->select(t, r); wr(fd2, sorted_ranks(r));
+        }, fc);
+        if (fc) f = "(-996)";
+        VectorInt r; ng->select(t, r);
+        wr(fd, " (" + sorted_ranks(r) + " " + f + " " + (ng->isUnchanged() ? "1" : "0") + ")");
+        continue;
+      }
+      wr(fd, " (0)");
+    }
+  }, crashed);
+  return "(" + out + (crashed ? " (-996)" : "") + ")";
+}
+
+// ------------------------------------------------------------------ 82: variogram calculations after a prefix of others
+//  (82 dbs calls observed)  call = (kind db ndir npas dpas): 0 Vario::computeFromDb  1 db_vmap  2 db_vcloud
+#include "Variogram/Vario.hpp"
+#include "Variogram/VarioParam.hpp"
+#include "Variogram/VMap.hpp"
+#include "Variogram/VCloud.hpp"
+static std::string vario_call(const Sx& cl, std::vector<Db*>& dbs, bool observe) {
+  long long k = cl[0].i(); Db* db = dbs[cl[1].i()];
+  std::ostringstream o; o << "(";
+  if (k == 0) {
+    VarioParam* vp = VarioParam::createMultiple((int) cl[2].i(), (int) cl[3].i(), cl[4].d());
+    Vario* v = Vario::computeFromDb(*vp, db);
+    if (v == nullptr) o << "-1";
+    else if (observe) for (int id = 0; id < v->getDirectionNumber(); id++) {
+      VectorDouble gg = v->getGgVec(id), sw = v->getSwVec(id);
+      o << " " << sx_vd(std::vector<double>(gg.begin(), gg.end())) << " " << sx_vd(std::vector<double>(sw.begin(), sw.end()));
+    }
+    delete v; delete vp;
+  } else if (k == 1) {
+    DbGrid* g = db_vmap(db, ECalcVario::VARIOGRAM, {(int) cl[3].i(), (int) cl[3].i()}, VectorDouble(), 0, false);
+    if (g == nullptr) o << "-1";
+    else if (observe) for (int ic = 2; ic < g->getColumnNumber(); ic++) { VectorDouble v = g->getColumnByColIdx(ic, false, false); o << " " << sx_vd(std::vector<double>(v.begin(), v.end())); }
+    delete g;
+  } else {
+    VarioParam* vp = VarioParam::createOmniDirection((int) cl[3].i(), cl[4].d());
+    DbGrid* g = db_vcloud(db, vp, TEST, TEST, 6, 6);
+    if (g == nullptr) o << "-1";
+    else if (observe) for (int ic = 2; ic < g->getColumnNumber(); ic++) { VectorDouble v = g->getColumnByColIdx(ic, false, false); o << " " << sx_vd(std::vector<double>(v.begin(), v.end())); }
+    delete g; delete vp;
+  }
+  o << ")";
+  return o.str();
+}
+static std::string run_vario(const Sx& c) {
+  auto body = [&](int fd, bool with_prefix) {
+    std::vector<Db*> dbs; for (auto& d : c[1].l) dbs.push_back(mkdb(d));
+    if (with_prefix) for (auto& cl : c[2].l) (void) vario_call(cl, dbs, false);
+    wr(fd, vario_call(c[3], dbs, true));
+  };
+  bool c1 = false, c2 = false;
+  std::string a = in_child([&](int fd) { body(fd, true); }, c1, 60);
+  std::string b = in_child([&](int fd) { body(fd, false); }, c2, 60);
+  return "(" + (c1 ? std::string("(-996)") : a) + " " + (c2 ? std::string("(-996)") : b) + ")";
+}
+
+// ------------------------------------------------------------------ 85: every target alone vs within the sequence of one call
+//  (85 model dbin(x y z verr) targets(x y) (nmaxi radius distcont) mode)  mode 0 kriging, 1 kribayes (constant drift)
+//  per-target state of KrigingSystem::estimate (_lhsinv, _zam, ... reused from one target to the next)
+static Db* mkdb_v(const Sx& d) {
+  int n = (int) d[0].size();
+  VectorDouble tab;
+  for (int k = 0; k < 4; k++) for (auto& x : d[k].l) tab.push_back(x.d(TEST));
+  return Db::createFromSamples(n, ELoadBy::COLUMN, tab, {"x", "y", "z", "verr"}, {"x1", "x2", "z1", "v1"}, false);
+}
+static Db* mktargets(const Sx& t, int only) {
+  VectorDouble tab; int n = 0;
+  for (int k = 0; k < 2; k++) { n = 0; for (size_t i = 0; i < t[k].size(); i++) if (only < 0 || (int) i == only) { tab.push_back(t[k][i].d()); n++; } }
+  return Db::createFromSamples(n, ELoadBy::COLUMN, tab, {"x", "y"}, {"x1", "x2"}, false);
+}
+static std::string krig_once(const Sx& c, int only) {
+  Model* model = mkmodel(c[1]);
+  Db* dbin = mkdb_v(c[2]); Db* dbout = mktargets(c[3], only);
+  NeighMoving* ng = NeighMoving::create(false, (int) c[4][0].i(), c[4][1].d(), 1, 1);
+  if (!c[4][2].l.empty()) ng->setDistCont(c[4][2].d());
+  int rc;
+  if (c[5].i() == 1) {
+    model->setDriftIRF(0);
+    MatrixSquareSymmetric pc(1); pc.setValue(0, 0, 2.);
+    rc = kribayes(dbin, dbout, model, ng, {1.5}, pc);
+  } else if (c[5].i() == 2) {        // linear drift: the prior mean of the drift depends on the target
+    model->setDriftIRF(1);
+    MatrixSquareSymmetric pc(3); pc.setValue(0, 0, 2.); pc.setValue(1, 1, 1.); pc.setValue(2, 2, 0.5);
+    rc = kribayes(dbin, dbout, model, ng, {1.5, 0.5, -0.25}, pc);
+  } else rc = kriging(dbin, dbout, model, ng);
+  std::string o = "(" + std::to_string(rc);
+  for (int ic = 2; ic < dbout->getColumnNumber(); ic++) { VectorDouble v = dbout->getColumnByColIdx(ic, false, false); o += " " + sx_vd(std::vector<double>(v.begin(), v.end())); }
+  return o + ")";
+}
+static std::string run_seq(const Sx& c) {
+  bool c1 = false, c2 = false;
+  std::string a = in_child([&](int fd) { wr(fd, krig_once(c, -1)); }, c1, 60);
+  std::string b = in_child([&](int fd) { std::string o; for (size_t i = 0; i < c[3][0].size(); i++) o += " " + krig_once(c, (int) i); wr(fd, o); }, c2, 120);
+  return "(" + (c1 ? std::string("(-996)") : a) + " (" + (c2 ? std::string("(-996)") : b) + "))";
+}
+// ------------------------------------------------------------------ 86: mvndst called several times in one process
+#include "Basic/MathFunc.hpp"
+static std::string run_mvn(const Sx& c) {
+  bool crashed = false;
+  std::string out = in_child([&](int fd) {
+    int n = (int) c[1].i(); int maxpts = (int) c[2].i(); int reps = (int) c[3].i();
+    std::string o;
+    for (int r = 0; r < reps; r++) {
+      std::vector<double> lo((size_t) n, -1.), up((size_t) n, 1.5), cor((size_t) (n * (n - 1) / 2), c[4].d());
+      std::vector<int> inf((size_t) n, 2);
+      double err = 0., val = 0.; int inform = 0;
+      mvndst(n, lo.data(), up.data(), inf.data(), cor.data(), maxpts, 1e-6, 0., &err, &val, &inform);
+      o += " " + sx_d(val);
+    }
+    wr(fd, o);
+  }, crashed, 120);
+  return "(" + out + (crashed ? " (-996)" : "") + ")";
+}
+
+// 88: besselk (its locals are static): a list of (x alpha nb) calls; the observed call is the last one, also made first in a fresh process
+static std::string run_bessel(const Sx& c) {
+  auto one = [&](const Sx& q) { int nb = (int) q[2].i(); std::vector<double> bk((size_t) nb + 1, 0.); int rc = besselk(q[0].d(), q[1].d(), nb, bk.data()); return "(" + std::to_string(rc) + " " + sx_vd(bk) + ")"; };
+  bool c1 = false, c2 = false;
+  std::string a = in_child([&](int fd) { std::string o; for (auto& q : c[1].l) o = one(q); wr(fd, o); }, c1);
+  std::string b = in_child([&](int fd) { wr(fd, one(c[1].l.back())); }, c2);
+  return "(" + (c1 ? std::string("(-996)") : a) + " " + (c2 ? std::string("(-996)") : b) + ")";
+}
+
 // ------------------------------------------------------------------ dispatch
 static std::string run(const Sx& c) {
   long long kind = c[0].i();
@@ -450,6 +613,11 @@ static std::string run(const Sx& c) {
   if (kind == 70) return run_cov(c);
   if (kind == 80) return run_krig(c);
   if (kind == 81) return run_memo(c);
+  if (kind == 82) return run_vario(c);
+  if (kind == 83) return run_neigh(c);
+  if (kind == 85) return run_seq(c);
+  if (kind == 86) return run_mvn(c);
+  if (kind == 88) return run_bessel(c);
   return "(-997 1)";
 }
 int main(int argc, char** argv) { return sx_main(argc, argv, run); }
